@@ -306,23 +306,39 @@ SHAPES = [
     ({8: [0, 1], 9: [8, 2], 10: [9, 3], 11: [10, 4]}, 11, 5),
     ({8: [0, 1], 9: [8], 10: [9, 2, 3]}, 10, 4),
     ({8: [0, 1, 2, 3]}, 8, 4),
+    ({8: [0, 1], 9: [2, 3]}, [8, 9], 4),   # two roots (a gap, or an uncoalesced tree)
 ]
+
+
+def _leaves_below(children, u):
+    kids = children.get(u, [])
+    if not kids:
+        return [u]
+    out = []
+    for c in kids:
+        out.extend(_leaves_below(children, c))
+    return out
 
 
 def _count_check(shape, assign):
     children, root, nleaves = SHAPES[shape]
+    roots = root if isinstance(root, list) else [root]
     sets = [[u for u in range(nleaves) if assign[u] == k] for k in range(3)]
-    tree = CountTree(children, [root], 12, list(range(nleaves)))
+    tree = CountTree(children, roots, 12, list(range(nleaves)))
     tc = comb.tree_count_topologies(tree, sets)
     for r in range(1, 4):
         for idxs in itertools.combinations(range(3), r):
             expect = collections.Counter()
             if all(len(sets[i]) > 0 for i in idxs):
                 for choice in itertools.product(*(sets[i] for i in idxs)):
-                    keep = {u: i for u, i in zip(choice, idxs)}
-                    nested = _reduce(children, root, keep)
-                    rk = _to_rank(nested, list(idxs)).rank()
-                    expect[(rk[0], rk[1])] += 1
+                    # the chosen samples span a topology only inside one tree (root)
+                    for rt in roots:
+                        below = _leaves_below(children, rt)
+                        if all(u in below for u in choice):
+                            keep = {u: i for u, i in zip(choice, idxs)}
+                            nested = _reduce(children, rt, keep)
+                            rk = _to_rank(nested, list(idxs)).rank()
+                            expect[(rk[0], rk[1])] += 1
             got = tc[idxs if len(idxs) > 1 else idxs[0]]
             got = collections.Counter({(k[0], k[1]): v for k, v in got.items()})
             if got != expect:
@@ -383,3 +399,12 @@ def count_topologies_shape4(a0: int, a1: int, a2: int, a3: int) -> bool:
     post: _
     """
     return _count_check(4, [a0, a1, a2, a3])
+
+
+def count_topologies_two_roots(a0: int, a1: int, a2: int, a3: int) -> bool:
+    """
+    two cherries under separate roots: counts of the roots add up
+    pre: 0 <= a0 <= 3 and 0 <= a1 <= 2 and 0 <= a2 <= 2 and 0 <= a3 <= 2
+    post: _
+    """
+    return _count_check(5, [a0, a1, a2, a3])
